@@ -81,6 +81,34 @@ def _q_success_guard(cb, target_bb, call_bb):
     return False
 
 
+def rewind_rule(chk, P, prefix):
+    """a rewound batch is the whole batch again (cursor, byte count, buffers)"""
+    def rewind():
+        if not P.has_body("emit_file::EventBatch::rewind"):
+            return True, "no rewind (remainder-only retry): R8 then requires a sync on the error path", [P.body("emit_file::EventBatch::advance").span]
+        b = P.body("emit_file::EventBatch::rewind")
+        writes = {}
+        for bb, j, s in b.statements(normal_only=True):
+            if s["k"] == "assign" and "p" in s["place"]:
+                names = [p.get("n") for p in s["place"]["p"] if isinstance(p, dict) and "f" in p]
+                if names and names[-1] in ("index", "remaining_bytes"):
+                    writes[names[-1]] = b.origin(s["rv"]["op"]) if s["rv"]["k"] == "use" else ("unknown",)
+        if mir.o_const_value(writes.get("index", ("unknown",))) != 0:
+            return False, "rewind must reset the cursor to 0", [], b.span
+        rem = writes.get("remaining_bytes")
+        if rem is None or not mir.o_is_call(rem, name="sum"):
+            return False, "rewind must recompute remaining_bytes as the sum of all buffer lengths (found %s)" % (o_str(rem) if rem else None), [], b.span
+        chain = b.origin(rem[1].args[0], through_calls=("map", "iter", "deref", "copied", "cloned"))
+        if mir.o_field_path(chain)[1][-1:] != ["bufs"]:
+            return False, "remaining_bytes is summed over %s" % o_str(chain), [], b.span
+        # and advance must keep the buffers (not take them) for a rewind to re-send them
+        a = P.body("emit_file::EventBatch::advance")
+        if a.calls_to(path="core::mem::take") or a.calls_to(path="core::mem::replace"):
+            return False, "advance() takes buffers out of the batch, so a rewound batch would re-send empty records", [], a.span
+        return True, "", [b.span]
+    chk.ob("%s:EventBatch::rewind" % prefix, "a rewound batch is the whole batch again: cursor 0, byte count recomputed, buffers kept by advance()", rewind)
+
+
 def sync_before_ok(P):
     cb = main_closure(P)
     oks = [(bb, s) for bb, j, s in cb.statements(normal_only=True)
@@ -351,30 +379,7 @@ def run(chk):
         return True, "", [b.span]
     chk.ob("C10.R7:EventBatch::advance", "advance moves the cursor by one and subtracts exactly the length of the buffer at the cursor", advance)
 
-    def rewind():
-        if not P.has_body("emit_file::EventBatch::rewind"):
-            return True, "no rewind (remainder-only retry): R8 then requires a sync on the error path", [P.body("emit_file::EventBatch::advance").span]
-        b = P.body("emit_file::EventBatch::rewind")
-        writes = {}
-        for bb, j, s in b.statements(normal_only=True):
-            if s["k"] == "assign" and "p" in s["place"]:
-                names = [p.get("n") for p in s["place"]["p"] if isinstance(p, dict) and "f" in p]
-                if names and names[-1] in ("index", "remaining_bytes"):
-                    writes[names[-1]] = b.origin(s["rv"]["op"]) if s["rv"]["k"] == "use" else ("unknown",)
-        if mir.o_const_value(writes.get("index", ("unknown",))) != 0:
-            return False, "rewind must reset the cursor to 0", [], b.span
-        rem = writes.get("remaining_bytes")
-        if rem is None or not mir.o_is_call(rem, name="sum"):
-            return False, "rewind must recompute remaining_bytes as the sum of all buffer lengths (found %s)" % (o_str(rem) if rem else None), [], b.span
-        chain = b.origin(rem[1].args[0], through_calls=("map", "iter", "deref", "copied", "cloned"))
-        if mir.o_field_path(chain)[1][-1:] != ["bufs"]:
-            return False, "remaining_bytes is summed over %s" % o_str(chain), [], b.span
-        # and advance must keep the buffers (not take them) for a rewind to re-send them
-        a = P.body("emit_file::EventBatch::advance")
-        if a.calls_to(path="core::mem::take") or a.calls_to(path="core::mem::replace"):
-            return False, "advance() takes buffers out of the batch, so a rewound batch would re-send empty records", [], a.span
-        return True, "", [b.span]
-    chk.ob("C10.R8:EventBatch::rewind", "a rewound batch is the whole batch again: cursor 0, byte count recomputed, buffers kept by advance()", rewind)
+    rewind_rule(chk, P, "C10.R8")
 
     def r8_exits():
         cb = main_closure(P)
